@@ -1,6 +1,7 @@
 import os
 
 from .props import HDR, standard
+from .c14_e2e import run_e2e
 
 
 def _replace():
@@ -18,10 +19,12 @@ RQ = "C16/zz_verif_c16rq_test.go"
 
 def run(ctx):
     quick = ctx.tier == "quick"
-    n_sync = 500 if quick else 20000
-    n_stale = 300 if quick else 5000
-    n_wp = 200 if quick else 6000
-    n_e2e = 2 if quick else 25
+    n_sync = 500 if quick else 10000
+    n_stale = 300 if quick else 3000
+    n_wp = 200 if quick else 3000
+    n_e2e = 2 if quick else 10
+
+    notes = []
 
     def stages(ctx, mult, suffix, off):
         # dead processes: sync cancels / re-queues (same stage as C14, judged by the same proved spec)
@@ -39,10 +42,7 @@ def run(ctx):
                   replace=_replace())
         # end-to-end with the property's fault mix; final container states and instances judged
         if not suffix:
-            ctx.stage("e2e", "lib/dispatchcloud", "dispatchcloud", ["C14/zz_verif_c14e2e_test.go"], "TestVerifC14E2E$",
-                      n_e2e, HDR.format(imports="model.C14_e2e_run"), shard=1, seed_offset=15,
-                      env={"VERIF_STAGE": "e2e", "VERIF_E2EMODE": "c15", "VERIF_BIG": "0" if quick else "1"}, timeout=3000,
-                      replace=_replace())
+            run_e2e(ctx, n_e2e, "c15", not quick, 15, _replace(), notes)
     return standard(
         ctx, "C15", ["model/C14_sync_run.vo", "model/C15_run.vo", "model/C14_wp_run.vo", "model/C14_e2e_run.vo"], stages,
         rule="sync snapshots as in C14; fixStaleLocks: 1-4 looks at 1-4 containers with workers becoming known / the timer firing; "
@@ -50,6 +50,7 @@ def run(ctx):
              "the scenarios; e2e: 20-80 containers (100-500 in thorough), crash rate 0-0.3, arv-mount deadlocks, destroy error rate "
              "0-0.4, boot delay up to 40 ms, broken / crunch-run-less / self-reporting-broken VMs, create rate limit, one restart in "
              "2/3 of the runs, deadline 30 s (100 s): final states must be Complete/Cancelled and no instance may be left",
+        extra={"e2e_notes": notes},
         assumptions=[
             "liveness in the real runtime is judged only by the end-to-end stage within a wall-clock deadline two orders of magnitude "
             "above the normal completion time (exploration); fairness of the Go scheduler and of timers is outside the model",
